@@ -15,3 +15,8 @@ META = {
     "explanation": "KeyFile methods verified against contracts with the ghost file system fs: path -> optional bytes; "
                    "session-level claims are lemmas over those contracts (props/lemmas/c07.py).",
 }
+
+try:
+    from props.C07_rac import rac, replay   # bounded run-time contract driver (stand-in + replay harness)
+except ImportError:   # pragma: no cover
+    pass
